@@ -251,3 +251,71 @@ def ts3a(P, C):
             C.ob("TS-3a", ts.fshort(f), "store:%s/%d#%d" % (r[0], r[1], n), not bad, f.loc(i),
                  "pointer stored into owned member %s: %s" % (r[0], f.render(ap[1])[:70]))
     return n
+
+
+# --------------------------------------------------------------------------
+# SM-4: which HDU is current when the model (and the reader) look at the primary header
+# --------------------------------------------------------------------------
+PRIMARY_READERS = ("countAuxKeywords", "readOrder", "fits_get_hdrspace", "fits_read_keyn", "fits_read_key", "fits_get_img_dim")
+HDU_MOVES = ("fits_movnam_hdu", "fits_movrel_hdu", "fits_movabs_hdu")
+
+
+def hdu_states(f):
+    """[(call node, name, state)] for every cfitsio/primary-header call: state in {'primary','other','?'} = which HDU is current
+    there on every path (forward must-dataflow; joins of different states give '?')"""
+    def nm(i):
+        cal = f.nodes[i].get("callee")
+        if not cal:
+            return None
+        return f.call_macro(i) or cal["name"]
+
+    def transfer(st, e, b, j):
+        if e.get("kind") != "stmt":
+            return st
+        i = e["n"]
+        if f.k(i) not in ("CallExpr",):
+            return st
+        n = nm(i)
+        if n == "fits_movabs_hdu":
+            a = f.args(i)
+            return "primary" if len(a) > 1 and f.nodes[f.strip(a[1])].get("cv") == 1 else "other"
+        if n in ("fits_movnam_hdu", "fits_movrel_hdu"):
+            return "other"
+        return st
+
+    entry = "primary" if f.name != "estimateMemory" else "?"
+    IN, OUT = core.dataflow(f, entry, transfer, lambda a, b: a if a == b else "?")
+    pos = f.node_positions()
+    out = []
+    for i, cal in f.calls():
+        if not cal or i not in pos:
+            continue
+        n = nm(i)
+        st = core.state_before(f, IN, transfer, *pos[i])
+        if st is not None:
+            out.append((i, n, st))
+    return out
+
+
+def sm4(P, C):
+    C.rule("SM-4", "the size model reads what lives in the primary header — dimension count, coefficient shape, orders and above all the count "
+           "of auxiliary keys — while the primary HDU is current (after fits_movabs_hdu(…,1,…) and before any move to a KNOTS extension), and "
+           "reads each knot count after moving to that extension; the reader does the same", floor=8)
+    for f in [P.one("estimateMemory", unit="driver"), P.one("read_fits_core", unit="driver")]:
+        seen = {}
+        for i, n, st in hdu_states(f):
+            if n in PRIMARY_READERS:
+                a = seen.setdefault(n, {"n": 0, "bad": []})
+                a["n"] += 1
+                if st != "primary":
+                    a["bad"].append(i)
+        for n, a in sorted(seen.items()):
+            C.ob("SM-4", f.name, n, not a["bad"], f.loc(a["bad"][0]) if a["bad"] else f.where(),
+                 "%d call(s) of %s: %s" % (a["n"], n, "all made while the primary HDU is current" if not a["bad"] else
+                                           "%s made while another HDU (a KNOTS extension) is or may be current, so it inspects the wrong header"
+                                           % ", ".join(f.loc(i) for i in a["bad"])))
+        if f.name == "estimateMemory":
+            C.ob("SM-4", f.name, "aux-keys-counted", "countAuxKeywords" in seen, f.where(), "the auxiliary keys are counted at all")
+            kn = [(i, st) for i, n, st in hdu_states(f) if n == "fits_get_img_size" and any(f.k(a) == "ForStmt" for a in f.ancestors(i))]
+            C.ob("SM-4", f.name, "knot-count-in-extension", bool(kn) and all(st == "other" for _, st in kn), f.loc(kn[0][0]) if kn else f.where(),
+                 "the knot count is read after moving to the KNOTS extension")
